@@ -725,7 +725,7 @@ int main(int argc, char** argv) {
     {"mult(A,B,O)",                       op_mult,     true,  true,  3, 3, 3, 1, 4, 4, 1,           1},
     {"mult(A,iA,B,iB,O,iO)",              op_multC,    true,  true,  3, 3, 3, 3, 4, 2, 6,           1},
     {"mult(A,D,B,O)",                     op_multD,    true,  true,  3, 3, 3, 1, 4, 4, 3,           1},
-    {"mult(A,iA,D,iD,B,iB,O,iO)",         op_multCD,   true,  true,  3, 3, 3, 3, 4, 2, 6,           1},
+    {"mult(A,iA,D,iD,B,iB,O,iO)",         op_multCD,   true,  true,  3, 3, 3, 3, 4, 3, 6,           1},   // pattern 2 has diagonal entries that are zero in one part only
     {"mult(A,D,U,L,B,O)",                 op_multT,    true,  true,  3, 3, 3, 1, 4, 2, 9,           1},
     {"add(A,B)",                          op_add,      true,  true,  3, 3, 1, 1, 1, 4, 1,           1},
     {"add(A,x,B)",                        op_addx,     true,  true,  3, 3, 1, 1, 1, 4, 4,           4},
